@@ -276,6 +276,22 @@ def coll_ops(co, rng, case):
     ops.append(("coll-keys", "slice", lambda: co[("a",)] if "a" in co else co))
     ops.append(("coll-copy", "slice", lambda: co.copy()))
     ops.append(("q:aligned", "query", lambda: ("Q", [repr(co.aligned_dimensions), repr(co.aligned_axis_physical_types), list(co.keys())])))
+    if co.aligned_axes is not None and len(co) >= 1:
+        def refused_update():
+            # an update that must be refused (the new member's aligned axis is one element shorter): ValueError, and the
+            # collection - which every later step re-observes - is left exactly as it was
+            key0 = list(co.keys())[0]
+            member, axes = co[key0], tuple(co.aligned_axes[key0])
+            if not hasattr(member, "data") or member.data.shape[axes[0]] < 2:
+                return ("Q", ["refused-update", "skipped"])
+            item = [slice(None)] * member.data.ndim
+            item[axes[0]] = slice(1, None)
+            try:
+                co.update([(key0, member[tuple(item)]), ("zz_refused", member[tuple(item)])], (axes, axes))
+                return ("Q", ["refused-update", "accepted"])
+            except ValueError:
+                return ("Q", ["refused-update", "ValueError"])
+        ops.append(("q:refused-update", "query", refused_update))
     return ops
 
 
